@@ -444,6 +444,7 @@ class Spec(PropSpec):
                 cases.append(F.gen_parked(ctx.rng) if (i // 6) % 3 else F.gen_blocked_writer(ctx.rng))
             else:
                 cases.append(F.gen_random(ctx.rng) if r % 2 else F.gen_complete(ctx.rng))
+        cases += [F.gen_hold_repair_release(ctx.rng) for _ in range(16 if quick else 160)]
         # large writes are expensive to evaluate in the model: spread them over the coqc shards
         nl = 14 if quick else 160
         gap = max(1, len(cases) // (nl + 1))
